@@ -4871,6 +4871,13 @@ parse_connection_headers (struct MHD_Connection *connection)
 #endif /* HAVE_MESSAGES */
       }
     }
+    if (! MHD_IS_HTTP_VER_1_1_COMPAT (connection->rq.http_ver))
+    {
+      /* HTTP/1.0 request with "Transfer-Encoding:": the framing must be
+         treated as faulty, the connection must be closed after processing
+         of the request. See RFC 9112, Section 6.1, paragraph 16. */
+      connection->keepalive = MHD_CONN_MUST_CLOSE;
+    }
     connection->rq.have_chunked_upload = true;
     connection->rq.remaining_upload_size = MHD_SIZE_UNKNOWN;
   }
